@@ -57,6 +57,9 @@ func render(v ssa.Value, depth int) string {
 		}
 		return x.Value.ExactString()
 	case *ssa.Parameter:
+		if t, ok := paramText[x]; ok {
+			return t
+		}
 		return x.Name()
 	case *ssa.FreeVar:
 		return x.Name()
@@ -164,6 +167,36 @@ func render(v ssa.Value, depth int) string {
 			return render(x.Call.Value, depth+1) + "." + x.Call.Method.Name() + "(" + strings.Join(args, ", ") + ")"
 		}
 		if f := StaticCallee(&x.Call); f != nil {
+			// a helper that the rules do not know by name and that is a side-effect-free single expression reads as that expression
+			if ret, path, ok := pureExprOf(f); ok && len(args) == len(f.Params) && depth < 40 {
+				saved := map[*ssa.Parameter]string{}
+				had := map[*ssa.Parameter]bool{}
+				for i, prm := range f.Params {
+					saved[prm], had[prm] = paramText[prm]
+					paramText[prm] = args[i]
+				}
+				old := curResolver
+				curResolver = func(y ssa.Value) ssa.Value {
+					for i := 0; i < 6; i++ {
+						z := resolvePhi(spillOnPath(y, path.Blocks), path.Blocks)
+						if z == y {
+							break
+						}
+						y = z
+					}
+					return y
+				}
+				out := render(ret, depth+1)
+				curResolver = old
+				for _, prm := range f.Params {
+					if had[prm] {
+						paramText[prm] = saved[prm]
+					} else {
+						delete(paramText, prm)
+					}
+				}
+				return out
+			}
 			name := f.Name()
 			if f.Signature.Recv() != nil && len(args) > 0 {
 				return args[0] + "." + name + "(" + strings.Join(args[1:], ", ") + ")"
@@ -609,4 +642,96 @@ func RenderSubst(v ssa.Value, sub map[ssa.Value]ssa.Value) string {
 		}
 		return x
 	})
+}
+
+// paramText holds, while the body of an expanded helper is rendered, the text of the argument for each parameter.
+var paramText = map[*ssa.Parameter]string{}
+
+type pureInfo struct {
+	ret  ssa.Value
+	path *Path
+	ok   bool
+}
+
+var pureCache = map[*ssa.Function]pureInfo{}
+
+// pureExprOf: fn is a function of the module that is not in KnownFuncs (a helper introduced after the rules were written), has
+// one result and a single returning path, stores nothing outside its locals, sends nothing, spawns nothing and calls nothing of
+// the module except other such helpers (lock operations and standard-library calls are allowed). Its calls then denote its
+// return expression with the parameters replaced by the arguments.
+func pureExprOf(fn *ssa.Function) (ssa.Value, *Path, bool) {
+	if info, ok := pureCache[fn]; ok {
+		return info.ret, info.path, info.ok
+	}
+	pureCache[fn] = pureInfo{} // recursion guard
+	info := pureInfo{}
+	defer func() { pureCache[fn] = info }()
+	if fn.Pkg == nil || len(fn.Blocks) == 0 || fn.Parent() != nil || !strings.HasPrefix(fn.Pkg.Pkg.Path(), "github.com/b2broker/simplefix-go") || KnownFuncs[fn.String()] {
+		return nil, nil, false
+	}
+	if fn.Signature.Results().Len() != 1 || fn.Signature.Variadic() {
+		return nil, nil, false
+	}
+	pure := true
+	AllInstrs(fn, func(in ssa.Instruction) {
+		switch x := in.(type) {
+		case *ssa.Store:
+			if _, local := x.Addr.(*ssa.Alloc); !local {
+				if ia, isIdx := x.Addr.(*ssa.IndexAddr); isIdx {
+					if _, lit := ia.X.(*ssa.Alloc); lit {
+						return // element of a literal being built
+					}
+				}
+				if fa, isF := x.Addr.(*ssa.FieldAddr); isF {
+					if _, lit := fa.X.(*ssa.Alloc); lit {
+						return
+					}
+				}
+				pure = false
+			}
+		case *ssa.MapUpdate, *ssa.Send, *ssa.Go, *ssa.Select, *ssa.Defer, *ssa.Panic:
+			pure = false
+		case *ssa.Call:
+			cc := &x.Call
+			if _, _, isLock := lockOp(cc); isLock {
+				return
+			}
+			if cc.IsInvoke() {
+				// getters of the message interfaces are reads; anything else through an interface is opaque
+				pure = false
+				return
+			}
+			if _, isBuiltin := cc.Value.(*ssa.Builtin); isBuiltin {
+				return
+			}
+			c2 := StaticCallee(cc)
+			if c2 == nil {
+				pure = false
+				return
+			}
+			if c2.Pkg != nil && strings.HasPrefix(c2.Pkg.Pkg.Path(), "github.com/b2broker/simplefix-go") {
+				if _, _, ok := pureExprOf(c2); !ok {
+					pure = false
+				}
+			}
+		}
+	})
+	if !pure {
+		return nil, nil, false
+	}
+	paths, _ := EnumPaths(fn, 16)
+	var ret *Path
+	for _, p := range paths {
+		if p.Return != nil {
+			if ret != nil {
+				return nil, nil, false
+			}
+			ret = p
+		}
+	}
+	if ret == nil || len(ret.ResVals) != 1 {
+		return nil, nil, false
+	}
+	info = pureInfo{ret: ret.ResVals[0], path: ret, ok: true}
+	return info.ret, info.path, true
 }
